@@ -252,7 +252,20 @@ def c09(run):
         "into an lg_xmit that is linked into session->lg_xmit or deleted; coap_block_delete_lg_xmit calls it exactly once (R-RELEASE-ONCE).")
 
 
+def c20(run):
+    from rules import r_outbound
+    P = run.prog('rel')
+    r_outbound.run(run, P)
+    run.min_instances('R-OUT-BOUND', 10)
+    run.assumptions = ASSUME_COMMON + ["window / total / truncation-flag exactness and the filter semantics are NOT decided"]
+    return run.finish(
+        "One clause of C20 is decided: the listing is never written behind the window the caller supplied. Every store through the output cursor "
+        "of coap_print_link / coap_print_wellknown_lkd happens on a path that holds cursor < end for the current cursor value, and the space handed "
+        "down to coap_print_link is end - cursor of the current cursor (R-OUT-BOUND).")
+
+
 PROPS = {
+    'C20': c20,
     'C09': c09,
     'C10': c10,
     'C06': c06,
